@@ -240,6 +240,17 @@ var c19edit = newChk("C19", "parsed-set-edits",
 		case 5:
 			l.Labels = append(l.Labels, c.Name)
 			edited = append(edited, c.Name)
+		case 6, 7: // change only the letter case of one name (in place / through a new slice)
+			if n == 0 {
+				return nil
+			}
+			flipped := flipCase(orig[idx])
+			edited[idx] = flipped
+			if c.Kind == 6 {
+				l.Labels[idx] = flipped
+			} else {
+				l.Labels = append([]string{}, edited...)
+			}
 		}
 		if namesEq(edited, orig) {
 			changed = false
@@ -272,7 +283,21 @@ var c19edit = newChk("C19", "parsed-set-edits",
 
 func TestC19_EditsRapid(t *testing.T) {
 	c19edit.rapidCheck(t, rapid.Custom(func(rt *rapid.T) c19Edit {
-		return c19Edit{Wire: gen.LabelWire(false).Draw(rt, "wire"), Kind: rapid.IntRange(0, 5).Draw(rt, "kind"),
+		return c19Edit{Wire: gen.LabelWire(false).Draw(rt, "wire"), Kind: rapid.IntRange(0, 7).Draw(rt, "kind"),
 			Idx: rapid.IntRange(0, 7).Draw(rt, "idx"), Name: gen.Name().Draw(rt, "name")}
 	}))
+}
+
+// flipCase toggles the case of every ASCII letter.
+func flipCase(s string) string {
+	b := []byte(s)
+	for i, c := range b {
+		switch {
+		case c >= 'a' && c <= 'z':
+			b[i] = c - 32
+		case c >= 'A' && c <= 'Z':
+			b[i] = c + 32
+		}
+	}
+	return string(b)
 }
